@@ -83,6 +83,10 @@ def random_specs(rng, n):
             vs.append(v)
         if not vs:
             continue
+        if R is None and any(v.fields for v in vs):
+            # rustc: explicit discriminants on an enum with non-unit variants need a primitive #[repr]
+            for v in vs:
+                v.disc, v.disc_val = None, None
         out.append(DSpec(EnumSpec("R%d" % k, vs, repr=R, role="random", note="random"), dderives=["strum::EnumIter"], checks={"iter"} | ({"layout"} if R else set())))
     return out
 
